@@ -22,7 +22,9 @@ def main():
             return selftest.main(a.tier)
         mod = importlib.import_module(f"gbverif.checks.{a.prop}")
         if a.replay:
-            return mod.replay(a.replay)
+            from .core import generic_replay
+            rc = generic_replay(a.prop, a.replay)      # files written with provenance (call + trace specification)
+            return mod.replay(a.replay) if rc is None else rc
         return mod.run(a.tier)
     except (Machinery, TLCError, RunnerError) as ex:
         print(f"MACHINERY-FAILURE {a.prop}: {ex}", file=sys.stderr)
